@@ -33,11 +33,16 @@ class XmlEventHandler(XmlHandler):
         if isinstance(source, etree.Element):
             ctx = iterwalk(source, {})
         elif self.parser.config.process_xinclude:
-            root = etree.parse(source).getroot()  # nosec
-            base_url = get_base_url(self.parser.config.base_url, source)
-            loader = functools.partial(xinclude_loader, base_url=base_url)
+            try:
+                root = etree.parse(source).getroot()  # nosec
+                base_url = get_base_url(self.parser.config.base_url, source)
+                loader = functools.partial(xinclude_loader, base_url=base_url)
 
-            xinclude.include(root, loader=loader)
+                xinclude.include(root, loader=loader)
+            except (LookupError, ValueError) as e:
+                # The python codecs errors for encodings that are unknown to expat
+                raise ParserError(e)
+
             ctx = iterwalk(root, {})
         else:
             ctx = iterparse(source)
